@@ -628,9 +628,9 @@ func runC12StateDB(c *vx.Ctx) {
 	for _, pl := range plans {
 		stop := false
 		// every plan gets its own share of the statedb time; the transaction-split plan is small
-		share := 0.28 / float64(nBig)
+		share := 0.24 / float64(nBig)
 		if pl.TxSplit {
-			share = 0.02
+			share = 0.08
 		}
 		expiredA := c12Slice(c, share)
 		// prefixes of this plan, most telling first: those ending in a transaction boundary
